@@ -152,7 +152,10 @@ RECURSIVE Split(_, _)
 Split(bytes, sz) == IF bytes = <<>> THEN <<>> ELSE <<SubSeq(bytes, 1, sz)>> \o Split(SubSeq(bytes, sz + 1, Len(bytes)), sz)
 
 AttrOuts(C, mem, r) ==
-  IF r.tag = 0 THEN { AnyFail(mem) }
+  \* (mode "class0": Get Attribute Single of a CLASS-level attribute of the Message Router, @2/0/1 -- an attribute the tag model does not
+  \*  describe: it is answered with success and data the model leaves open; what matters is that it is never served from a tag)
+  IF r.tag = 0 /\ r.mode = "class0" /\ r.svc = "gas" THEN { [k |-> "anybytes", st |-> 0, ext |-> <<>>, data |-> <<>>, mem |-> mem] }
+  ELSE IF r.tag = 0 THEN { AnyFail(mem) }
   ELSE LET T == C.tags[r.tag]  sz == Size(T.type) IN
   IF r.svc = "gas" THEN { [k |-> "okbytes", st |-> 0, ext |-> <<>>, data |-> TagBytes(C, mem, r.tag), mem |-> mem] }
   ELSE IF sz = 0 \/ Len(r.bytes) # sz * T.len THEN { AnyFail(mem) }
@@ -202,6 +205,7 @@ ReqPath(C, r) ==
   \* an unknown destination: a name no tag has, an instance the Message Router class does not have, a class nobody has (the
   \* attribute number 1 exists in @2/1: the request must not be served from there)
   LET base == IF r.tag = 0 THEN (IF r.mode = "noinst" THEN CIASegs(<<2, 7, 1>>) ELSE IF r.mode = "noclass" THEN CIASegs(<<119, 1, 1>>)
+                                 ELSE IF r.mode = "class0" THEN CIASegs(<<2, 0, 1>>)
                                  ELSE <<SymSeg(UnknownName)>>)
               ELSE IF r.mode = "sym" THEN <<SymSeg(C.tags[r.tag].name)>> ELSE CIASegs(C.tags[r.tag].cia)
   IN IF r.idx >= 0 THEN base \o <<ElemSeg(r.idx)>> ELSE base
@@ -229,6 +233,7 @@ Matches(C, r, o, rpy) ==
           rpy = EncReadReply(svc, o.st, <<>>, C.tags[r.tag].type, o.data)
     [] o.k = "ok" -> rpy = EncPlainReply(svc, 0, <<>>)
     [] o.k = "okbytes" -> rpy = EncDataReply(svc, 0, <<>>, o.data)
+    [] o.k = "anybytes" -> Len(rpy) > 4 /\ SubSeq(rpy, 1, 4) = <<svc + 128, 0, 0, 0>>
     [] o.k = "err" -> rpy = EncPlainReply(svc, o.st, o.ext)
     [] o.k = "anyfail" -> \/ rpy = <<>>
                           \/ /\ Len(rpy) >= 4 /\ rpy[1] = svc + 128 /\ rpy[2] = 0 /\ rpy[3] \notin {0, 6}
